@@ -513,10 +513,10 @@ func TestGowpReplay(t *testing.T) {
 	cmd.Run()
 	txt := out.String()
 	detail := map[string]interface{}{
-		"command":    "cd " + repo + " && go " + strings.Join(argv, " "),
-		"test_file":  testFile,
+		"command":     "cd " + repo + " && go " + strings.Join(argv, " "),
+		"test_file":   testFile,
 		"test_source": src,
-		"output":     truncate(txt, 3000),
+		"output":      truncate(txt, 3000),
 	}
 	want := "REPRODUCED"
 	for _, l := range strings.Split(txt, "\n") {
